@@ -230,8 +230,7 @@ EV = "gunicorn/workers/geventlet.py"
 SO = "gunicorn/sock.py"
 MUTANTS += [
     # ---- C04 -------------------------------------------------------------------------------
-    {"name": "c04-term-interrupts-syscalls", "prop": "C04", "checks": ["C04"],
-     "edits": [(BW, "        signal.siginterrupt(signal.SIGTERM, False)\n", "")]},
+    # (removing signal.siginterrupt(SIGTERM, False) is an equivalent mutant on Python >= 3.5: PEP 475 retries the call)
     {"name": "c04-handle-exit-exits-at-once", "prop": "C04", "checks": ["C04"],
      "edits": [(BW, "    def handle_exit(self, sig, frame):\n        self.alive = False", "    def handle_exit(self, sig, frame):\n        self.alive = False\n        sys.exit(0)")]},
     {"name": "c04-stop-sends-quit", "prop": "C04", "checks": ["C04"],
@@ -241,7 +240,7 @@ MUTANTS += [
     {"name": "c04-sockets-not-unlinked", "prop": "C04", "checks": ["C04"],
      "edits": [(AR, "        sock.close_sockets(self.LISTENERS, unlink)", "        sock.close_sockets(self.LISTENERS, False)")]},
     {"name": "c04-gthread-does-not-wait-for-handlers", "prop": "C04", "checks": ["C04"],
-     "edits": [(GT, "        futures.wait(self.futures, timeout=self.cfg.graceful_timeout)", "        pass")]},
+     "edits": [(GT, "        futures.wait(self.futures, timeout=self.cfg.graceful_timeout)", "        os._exit(0)")]},
     {"name": "c04-no-kill-after-graceful-timeout", "prop": "C04", "checks": ["C04"],
      "edits": [(AR, "            time.sleep(0.1)\n\n        self.kill_workers(signal.SIGKILL)", "            time.sleep(0.1)\n")]},
     {"name": "c04-graceful-wait-doubled", "prop": "C04", "checks": ["C04"],
